@@ -107,7 +107,7 @@ def run(ctx):
     dis = spec_fail = nontrivial = 0
     seen = set()
     for c, i, m in zip(cases, impl, model):
-        fields = ["tok"] if c[0] == "S" else ["bin", "load"]
+        fields = ["tok"] if c[0] == "S" else ["bin", "load", "binhex"]
         if c[0] == "F":
             key = cc.canon_fns(c[1])
             special = any(ch in a for _, b in c[1] for _, args in b for a in args for ch in '"\\ \t\n\r')
@@ -124,6 +124,8 @@ def run(ctx):
             spec_fail += 1
             ctx.report("binary-roundtrip", "argument/function not read back as emitted: %r -> %r" % (c[1], i["load"]),
                        {"case": c, "impl": i, "model": m, "how": "./verify replay"})
+        if c[0] == "F" and m.get("utf8back") != "same":
+            ctx.report("correspondence:utf8back", "Utf8.decode (Utf8.encode file) is not the file for case %r" % (c,), {"case": c, "model": m}, found_input=False)
         for f in fields:
             if i[f] != m[f]:
                 dis += 1
